@@ -60,6 +60,11 @@ func (ps *PartitionSet) AddRange(partName, modelName string, start, end, modulo 
 			return
 		}
 		ps.partitions[i] = partitionIndex
+		// The next position is after the end of the range
+		// (tested before the addition, which may overflow with a huge modulo)
+		if modulo > end-i {
+			break
+		}
 	}
 	return
 }
